@@ -98,9 +98,8 @@ func (p *c14Prop) Gen(r *Rng, i int, tier string) interface{} {
 		case 3, 4, 5: // bind
 			pk.Topic = ip(1 + r.Intn(4))
 			pk.Alias = ip(1 + r.Intn(c.Max))
-			if pk.Auth {
-				bound = append(bound, *pk.Alias)
-			}
+			// authorised or refused, the packet binds its alias
+			bound = append(bound, *pk.Alias)
 		case 6, 7, 8: // alias only: a bound alias unless the sequence is hostile
 			if len(bound) > 0 && !(hostile && r.Chance(20)) {
 				pk.Alias = ip(bound[r.Intn(len(bound))])
